@@ -27,6 +27,10 @@ theorem pIndex_ok {s : String} {len i : Nat} (h : i < len) : pIndex s len i = .o
   unfold pIndex; rw [if_pos h]
 theorem pCopyLen_ok {s : String} {a b : Nat} (h : a = b) : pCopyLen s a b = .ok () := by
   unfold pCopyLen; rw [if_pos h]
+theorem rawRef_ok_of {site : String} {i : Img} {off size align : Nat}
+    (h1 : off + size ≤ i.bytes.size) (h2 : (i.base + off) % align = 0) :
+    rawRef site i off size align = .ok ⟨off, size, align⟩ := by
+  unfold rawRef; rw [if_pos ⟨h1, h2⟩]
 
 
 /-! ### powers of two -/
@@ -383,12 +387,18 @@ theorem csumLoopChk_eq (b : Bytes) (skip n : Nat) :
       simp only [Out.bind_ok]
       exact ih _ (by omega) (csumStep_bound _ _ ha (le32_lt _ _))
 
-theorem checkSumChk_eq (v : View) (hb : v.b.size < 4294967296) : v.checkSumChk = .ok v.checkSum := by
+/-- `hbase`: the buffer is dword aligned — established by `validate_headers` (pe.rs:778) for every view
+that came out of a constructor; `check_sum` itself does not test it before `from_raw_parts(.. as *const u32 ..)` -/
+theorem checkSumChk_eq (v : View) (hb : v.b.size < 4294967296) (hbase : v.img.base % 4 = 0) :
+    v.checkSumChk = .ok v.checkSum := by
   unfold View.checkSumChk View.checkSum
   have he : eLfanew v.b < 4294967296 := le32_lt _ _
+  have hsz : v.img.bytes.size = v.b.size := rfl
   rw [padd64_ok (by omega)]
   simp only [Out.bind_ok]
   rw [padd64_ok (by omega)]
+  simp only [Out.bind_ok]
+  rw [rawRef_ok_of (by omega) (by omega)]
   simp only [Out.bind_ok]
   obtain ⟨h1, h2⟩ := csumLoopChk_eq v.b ((eLfanew v.b + 24 + 64) / 4) (v.b.size / 4) (v.b.size / 4) 0
     (Nat.le_refl _) (by decide)
@@ -432,19 +442,79 @@ theorem validateChk_eq (f : Fmt) (img : Img) : validateChk f img = validate f im
   have hn : numberOfSections img.bytes < 65536 := le16_lt _ _
   have ho : sizeOfOptionalHeader img.bytes < 65536 := le16_lt _ _
   have h24 : f.ntSize - f.optSize = 24 := by cases f <;> rfl
-  have hnt : f.ntSize ≤ 136 := by cases f <;> decide
+  have hnt : 120 ≤ f.ntSize ∧ f.ntSize ≤ 136 := by cases f <;> decide
   have hm : min (numberOfRvaAndSizes f img.bytes) 16 ≤ 16 := Nat.min_le_right _ _
-  unfold validateChk validate
-  simp only [h24, padd64_ok (show eLfanew img.bytes + 24 < 18446744073709551616 by omega),
-    padd64_ok (show eLfanew img.bytes + 24 + 2 < 18446744073709551616 by omega),
-    padd64_ok (show eLfanew img.bytes + f.ntSize < 18446744073709551616 by omega),
-    pmulUsize_ok (show min (numberOfRvaAndSizes f img.bytes) 16 * 8 < 18446744073709551616 by omega),
-    padd64_ok (show eLfanew img.bytes + f.ntSize + min (numberOfRvaAndSizes f img.bytes) 16 * 8 < 18446744073709551616 by omega),
-    pmulUsize_ok (show numberOfSections img.bytes * 40 < 18446744073709551616 by omega),
-    padd64_ok (show eLfanew img.bytes + 24 + sizeOfOptionalHeader img.bytes < 18446744073709551616 by omega),
-    padd64_ok (show numberOfSections img.bytes * 40 + (eLfanew img.bytes + 24 + sizeOfOptionalHeader img.bytes) < 18446744073709551616 by omega),
-    Out.bind_ok]
-  rfl
+  unfold validateChk validate optMagic ntEnd numDataDirs secTable optOff
+  simp only [h24]
+  by_cases g1 : 64 > img.bytes.size
+  · rw [if_pos g1, if_pos g1]
+  rw [if_neg g1, if_neg g1]
+  by_cases g2 : img.base % 4 ≠ 0
+  · rw [if_pos g2, if_pos g2]
+  rw [if_neg g2, if_neg g2]
+  -- pe.rs:781: the DOS header lies inside the buffer (`64 ≤ len`) and the buffer is 4-aligned
+  rw [rawRef_ok_of (by omega) (by omega)]
+  simp only [Out.bind_ok]
+  by_cases g3 : le16 img.bytes 0 ≠ 0x5A4D
+  · rw [if_pos g3, if_pos g3]
+  rw [if_neg g3, if_neg g3]
+  by_cases g4 : eLfanew img.bytes % 4 ≠ 0
+  · rw [if_pos g4, if_pos g4]
+  rw [if_neg g4, if_neg g4]
+  by_cases g5 : eLfanew img.bytes > 0x01000000
+  · rw [if_pos g5, if_pos g5]
+  rw [if_neg g5, if_neg g5]
+  rw [padd64_ok (by omega)]
+  simp only [Out.bind_ok]
+  rw [padd64_ok (by omega)]
+  simp only [Out.bind_ok]
+  by_cases g6 : eLfanew img.bytes + 24 + 2 > img.bytes.size
+  · rw [if_pos g6, if_pos g6]
+  rw [if_neg g6, if_neg g6]
+  -- pe.rs:801 / 802: signature and magic lie below `magic_offset + 2 ≤ len`; `e_lfanew` is a multiple of 4
+  rw [rawRef_ok_of (by omega) (by omega)]
+  simp only [Out.bind_ok]
+  rw [rawRef_ok_of (by omega) (by omega)]
+  simp only [Out.bind_ok]
+  by_cases g7 : le32 img.bytes (eLfanew img.bytes) ≠ 0x00004550 ∨
+      ¬ (le16 img.bytes (eLfanew img.bytes + 24) = 0x10b ∨ le16 img.bytes (eLfanew img.bytes + 24) = 0x20b)
+  · rw [if_pos g7, if_pos g7]
+  rw [if_neg g7, if_neg g7]
+  by_cases g8 : le16 img.bytes (eLfanew img.bytes + 24) ≠ f.magic
+  · rw [if_pos g8, if_pos g8]
+  rw [if_neg g8, if_neg g8]
+  rw [padd64_ok (by omega)]
+  simp only [Out.bind_ok]
+  by_cases g9 : eLfanew img.bytes + f.ntSize > img.bytes.size
+  · rw [if_pos g9, if_pos g9]
+  rw [if_neg g9, if_neg g9]
+  -- pe.rs:817: the NT headers end at `nt_end ≤ len`
+  rw [rawRef_ok_of (by omega) (by omega)]
+  simp only [Out.bind_ok]
+  by_cases g10 : sizeOfHeaders img.bytes > img.bytes.size
+  · rw [if_pos g10, if_pos g10]
+  rw [if_neg g10, if_neg g10]
+  by_cases g11 : sizeOfHeaders img.bytes > sizeOfImage img.bytes
+  · rw [if_pos g11, if_pos g11]
+  rw [if_neg g11, if_neg g11]
+  rw [pmulUsize_ok (by omega)]
+  simp only [Out.bind_ok]
+  rw [padd64_ok (by omega)]
+  simp only [Out.bind_ok]
+  by_cases g12 : eLfanew img.bytes + f.ntSize + min (numberOfRvaAndSizes f img.bytes) 16 * 8 > img.bytes.size
+  · rw [if_pos g12, if_pos g12]
+  rw [if_neg g12, if_neg g12]
+  by_cases g13 : numberOfSections img.bytes > 96
+  · rw [if_pos g13, if_pos g13]
+  rw [if_neg g13, if_neg g13]
+  rw [pmulUsize_ok (by omega)]
+  simp only [Out.bind_ok]
+  rw [padd64_ok (by omega)]
+  simp only [Out.bind_ok]
+  rw [padd64_ok (by omega)]
+  simp only [Out.bind_ok]
+  rw [padd64_ok (by omega)]
+  simp only [Out.bind_ok]
 
 theorem fromBytesChk_eq (f : Fmt) (k : Kind) (img : Img) : fromBytesChk f k img = fromBytes f k img := by
   unfold fromBytesChk fromBytes
@@ -458,12 +528,38 @@ theorem wrapFromBytesChk_eq (k : Kind) (img : Img) : wrapFromBytesChk k img = wr
   | err e => cases e <;> rfl
   | _ => rfl
 
-/-! ### typed reads -/
+/-! ### `SectionHeaders::by_name` -/
 
-theorem rawRef_ok_of {site : String} {i : Img} {off size align : Nat}
-    (h1 : off + size ≤ i.bytes.size) (h2 : (i.base + off) % align = 0) :
-    rawRef site i off size align = .ok ⟨off, size, align⟩ := by
-  unfold rawRef; rw [if_pos ⟨h1, h2⟩]
+theorem nameBufLoopChk_eq (n : Bytes) (h8 : n.size ≤ 8) :
+    ∀ (fuel : Nat) (buf : Bytes), fuel ≤ n.size → buf.size = 8 →
+      nameBufLoopChk n fuel buf =
+        .ok ((List.range' (n.size - fuel) fuel).foldl (fun buf i => buf.setIfInBounds i (n.getD i 0)) buf) := by
+  intro fuel
+  induction fuel with
+  | zero => intro buf _ _; rfl
+  | succ fuel ih =>
+    intro buf hf hbuf
+    unfold nameBufLoopChk
+    dsimp only
+    rw [pIndex_ok (by omega)]
+    simp only [Out.bind_ok]
+    rw [pIndex_ok (by omega)]
+    simp only [Out.bind_ok]
+    rw [ih _ (by omega) (by rw [Array.size_setIfInBounds]; exact hbuf), List.range'_succ, List.foldl_cons]
+    have e : n.size - (fuel + 1) + 1 = n.size - fuel := by omega
+    rw [e]
+
+/-- no index of the copy loop of `by_name` is out of range: the checked function is the model's -/
+theorem byNameBytesChk_eq (secs : List Sec) (n : Bytes) : byNameBytesChk secs n = .ok (byNameBytes secs n) := by
+  unfold byNameBytesChk byNameBytes
+  by_cases h : n.size > 8
+  · rw [if_pos h, if_pos h]
+  · rw [if_neg h, if_neg h, nameBufLoopChk_eq n (by omega) n.size _ (Nat.le_refl _) (by simp)]
+    simp only [Out.bind_ok]
+    unfold nameBuf
+    rw [Nat.sub_self, List.range_eq_range']
+
+/-! ### typed reads -/
 
 theorem View.dervaChk_eq (v : View) (a : Addr) (size align : Nat) (ha : align < 18446744073709551616) :
     v.dervaChk a size align = v.derva a size align := by
@@ -574,6 +670,68 @@ theorem View.dervaSliceFChk_eq (v : View) (a : Addr) (size align : Nat) (stop : 
     cases hL : sliceFLoop v.b r.off r.len size stop (r.len + 2) 0 with
     | ok n =>
       obtain ⟨-, h2, -, -⟩ := sliceFLoop_ok _ _ _ hL
+      rw [Nat.succ_mul] at h2
+      exact rawRef_ok_of (by omega) hal
+    | _ => rfl
+  | _ => rfl
+
+/-! ### the loop of `derva_slice_f` with a stateful callable -/
+
+theorem sliceFLoopIChk_eq (img : Img) (off blen size align : Nat) (stop : Nat → Nat → Bool)
+    (hin : off + blen ≤ img.bytes.size) (hal : (img.base + off) % align = 0) (hsa : size % align = 0)
+    (hb : blen < 9223372036854775808) (hsz : size < 18446744073709551616) :
+    ∀ (fuel len : Nat), len + fuel < 18446744073709551616 → len * size ≤ blen →
+      sliceFLoopIChk img off blen size align stop fuel len = sliceFLoopI img.bytes off blen size stop fuel len := by
+  intro fuel
+  induction fuel with
+  | zero => intro len _ _; rfl
+  | succ fuel ih =>
+    intro len hf hl
+    unfold sliceFLoopIChk
+    rw [sliceFLoopI_succ, pmulUsize_ok (by omega)]
+    simp only [Out.bind_ok]
+    have hsum : len * size + size < 18446744073709551616 := by
+      rcases Nat.eq_zero_or_pos len with h0 | h0
+      · subst h0; omega
+      · have : size ≤ len * size := Nat.le_mul_of_pos_left _ h0
+        omega
+    rw [padd64_ok hsum]
+    simp only [Out.bind_ok]
+    by_cases hb' : len * size + size > blen
+    · rw [if_pos hb', if_pos hb']
+    · rw [if_neg hb', if_neg hb']
+      have hmod : (img.base + (off + len * size)) % align = 0 := by
+        have e : img.base + (off + len * size) = (img.base + off) + len * size := by omega
+        rw [e, Nat.add_mod, hal, Nat.mul_mod, hsa]
+        simp
+      rw [rawRef_ok_of (by omega) hmod]
+      simp only [Out.bind_ok]
+      by_cases hst : stop len (leN img.bytes (off + len * size) size) = true
+      · rw [if_pos hst, if_pos hst]
+      · rw [if_neg hst, if_neg hst, padd64_ok (by omega)]
+        simp only [Out.bind_ok]
+        exact ih (len + 1) (by omega) (by rw [Nat.succ_mul]; omega)
+
+theorem View.dervaSliceFIChk_eq (v : View) (a : Addr) (size align : Nat) (stop : Nat → Nat → Bool)
+    (hb : v.b.size < 4294967296) (hsz : size < 18446744073709551616) (hsa : size % align = 0)
+    (ha : align < 18446744073709551616) :
+    v.dervaSliceFIChk a size align stop = v.dervaSliceFI a size align stop := by
+  unfold View.dervaSliceFIChk View.dervaSliceFI
+  rw [v.atChk_eq a 0 align ha]
+  cases h : v.at a 0 align with
+  | ok r =>
+    obtain ⟨⟨hin, hal⟩, -, hra⟩ := v.at_sound a 0 align r h
+    rw [hra] at hal
+    have hbs : v.img.bytes.size < 4294967296 := hb
+    dsimp only
+    rw [sliceFLoopIChk_eq v.img r.off r.len size align stop hin hal hsa (by omega) hsz (r.len + 2) 0
+      (by omega) (by omega)]
+    show (match sliceFLoopI v.b r.off r.len size stop (r.len + 2) 0 with
+      | .ok n => rawRef _ v.img r.off (n * size) align
+      | .err e => .err e | .panic s => .panic s | .ub s => .ub s | .diverge => .diverge) = _
+    cases hL : sliceFLoopI v.b r.off r.len size stop (r.len + 2) 0 with
+    | ok n =>
+      obtain ⟨-, h2, -, -⟩ := sliceFLoopI_ok _ _ _ hL
       rw [Nat.succ_mul] at h2
       exact rawRef_ok_of (by omega) hal
     | _ => rfl
